@@ -282,7 +282,7 @@ def run_states(ctx):
                     impl = impl_ctxstates(bench, handles)
                     ref = ref_ctxstates(tabs, handles)
                     line = 'ctx ' + ' '.join(map(enc, handles))
-                case = {'mdib': [name, fname, n_descr, n_states], 'op': op, 'ctx_included': flag, 'handles': handles}
+                case = {'mdib': [name, fname, n_descr, n_states], 'op': op, 'ctx_included': flag, 'handles': handles, 'tier': ctx.tier}
                 bad = judge(op, handles, impl, ref)
                 if bad:
                     ctx.fail(bad[0], bad[1], {**case, 'seed': ctx.seed, 'impl': impl, 'reference': ref})
@@ -503,6 +503,7 @@ def replay(ctx, obj):
     if 'handles' in case:
         name, fname, n_descr, n_states = case['mdib']
         ctx.seed = case.get('seed', ctx.seed)
+        ctx.tier = case.get('tier', ctx.tier)
         with mock.patch('uuid.uuid4', _Uuid(ctx.subrng('uuid'))):
             # rebuild the same variant: variants are regenerated in order so that uuid draws agree
             for vname, vf, nd, ns in mdib_variants(ctx):
